@@ -8,3 +8,5 @@ for id in "$@"; do
   echo "== $id exit=$rc"; grep -E "^(VIOLATION|UNDECIDED|KNOWN-FINDING|FAILED-OBLIGATION|SUMMARY)" /tmp/try_$id.out | cut -c1-260
 done
 git -C /repo checkout -- .
+# evidence files must describe the unchanged tree: regenerate them (cached, fast)
+for id in "$@"; do bin/check "$id" --tier quick > /dev/null 2>&1; done
